@@ -249,6 +249,7 @@ func c09Window(r *simk.Run) *simk.Violation {
 			return cands[c.Intn(len(cands))]
 		}
 		gaps := []int64{1, 0, W / 2, W - 1, W, W + 1}
+		reuseP := 0.5 // raised once a restart met a read error: what follows should probe the rebuilt window
 		chooseItems := func(parent *vBlock, ts int64) ([]*vItem, bool) {
 			n := c.Intn(4)
 			var out []*vItem
@@ -261,7 +262,7 @@ func c09Window(r *simk.Run) *simk.Violation {
 						reuse = append(reuse, it)
 					}
 				}
-				if len(reuse) > 0 && c.Bool(0.5) {
+				if len(reuse) > 0 && c.Bool(reuseP) {
 					it := reuse[c.Intn(len(reuse))]
 					out = append(out, it)
 					dupTried = true
@@ -399,10 +400,10 @@ func c09Window(r *simk.Run) *simk.Violation {
 					idx.del(p.id)
 				}
 				processing = nil
-				// in a third of the restarts one chain-index read fails while the window is rebuilt (transient
+				// in half of the restarts one chain-index read fails while the window is rebuilt (transient
 				// disk error): the node then holds a partial window and, like the VM before it enters normal
 				// operation, completes it from the index once reads work again
-				readFault := c.Bool(0.33)
+				readFault := c.Bool(0.5)
 				if readFault {
 					idx.failIn.Store(int64(1 + c.Intn(4)))
 				}
@@ -414,6 +415,7 @@ func c09Window(r *simk.Run) *simk.Violation {
 				}
 				if readFault && idx.failed.Load() > 0 {
 					s.FaultFired("index-read-error-at-restart")
+					reuseP = 0.9
 					note("index read error during restart, window completed afterwards")
 					if !nw.Complete(ctx, accepted[at]) {
 						// the index does not reach back far enough: the VM would refuse normal operation
